@@ -45,6 +45,9 @@ COMPILERS = [
 ]
 
 
+FILE_NAMES = ["3dmodel", "9", "my-file", "a.b", "_x", "x y", "h\u00e9", "2-3", "-", "Mixed9Case", "for", "0x1f"]
+
+
 def covering(t):
     saved = c12.FACTORS
     try:
@@ -101,7 +104,7 @@ def api_problems(acc, header):
 def check_item(item):
     src, argv, label = item["src"], item["argv"], item["label"]
     res = dict(label=label, argv=argv, status="ok", runs=0, problems=[])
-    acc = loader.compile_source(src, argv)
+    acc = loader.compile_source(src, argv, name=item.get("name", "p"))
     if acc.kind != "accepted":
         res["status"] = acc.kind
         res["detail"] = acc.detail
@@ -156,6 +159,12 @@ def run(tier, seed):
         for r in rs:
             fl = flags_of(r)
             items.append(dict(label=p["label"], src=p["src"], argv=p["argv"] + [f for f in fl if f not in p["argv"]]))
+    # the output name is derived from the input file's name when no -o is given: whatever the file is called, the emitted identifiers must be C
+    for p in [x for x in ps if x["label"] in ("feat-lowercase", "feat-eof", "feat-strings")]:
+        for fname in FILE_NAMES:
+            for r in rows[(len(fname) + seed) % 8::8]:
+                fl = flags_of(r)
+                items.append(dict(label=p["label"] + " as file " + repr(fname), src=p["src"], argv=p["argv"] + [f for f in fl if f not in p["argv"]], name=fname))
     stats = dict(option_rows=len(rows), programs=len(ps), accepted=0, rejected=0)
     for idx, r in pmap(check_item, items, timeout=600, chunksize=4, stop=ck.enough):
         if "harness_error" in r or "harness_timeout" in r:
@@ -172,7 +181,7 @@ def run(tier, seed):
         for p in r["problems"]:
             root = classify(p)
             ck.violation(root or "C11:%s:%s:%s" % (p["kind"], re.sub(r"[0-9]+", "N", p["what"])[:60], sha(it["src"])[:6]), "%s %s: [%s] %s" % (it["label"], " ".join(it["argv"]), p["kind"], p["what"]),
-                         dict(src=it["src"], argv=it["argv"], kind=p["kind"]))
+                         dict(src=it["src"], argv=it["argv"], kind=p["kind"], name=it.get("name", "p")))
     ck.extra.update(stats)
     ck.exhaustive = False
     ck.assumptions += ["gcc 12 / clang 14 / g++ 12 on this image; -Wno-unused-label as the property allows",
@@ -186,7 +195,7 @@ def classify(p):
 
 def replay(path):
     d = json.load(open(path))
-    r = check_item(dict(src=d["src"], argv=d["argv"], label="replay"))
+    r = check_item(dict(src=d["src"], argv=d["argv"], label="replay", name=d.get("name", "p")))
     for p in r["problems"]:
         print(p)
     print("REPRODUCED" if r["problems"] else "not reproduced")
